@@ -61,6 +61,9 @@ type h2Hist struct {
 	kinds    map[string]bool
 	closed   bool
 	active   [][2]int
+	cidUser  map[int]string
+	boundCid map[int]bool
+	tcpMode  bool
 }
 
 func (h *h2Hist) pick(xs ...int) int { return xs[h.rng.Intn(len(xs))] }
@@ -229,7 +232,7 @@ func (h *h2Hist) pickClient() *h2Client {
 		n := 1 + h.rng.Intn(3)
 		for i := 0; i < n; i++ {
 			lid := 0
-			if len(h.w.lis) > 1 && h.rng.Intn(3) == 0 {
+			if len(h.w.lis) > 1 && (h.rng.Intn(3) == 0 || h.tcpMode) {
 				lid = 1
 			}
 			h.active = append(h.active, [2]int{lid, h.rng.Intn(len(h.cpool))})
@@ -330,11 +333,16 @@ func (h *h2Hist) opAllocate(c *h2Client, retransmit bool) {
 	case 2:
 		attrs = append(attrs, proto.RequestedTransport{Protocol: 99})
 		trS = "99"
-	case 3, 4, 5, 6, 7:
+	case 3, 4, 5, 6, 7, 8, 9, 10:
 		attrs = append(attrs, proto.RequestedTransport{Protocol: proto.ProtoTCP})
 		trS = "6"
 	default:
-		attrs = append(attrs, proto.RequestedTransport{Protocol: proto.ProtoUDP})
+		if h.tcpMode && h.rng.Intn(5) != 0 {
+			attrs = append(attrs, proto.RequestedTransport{Protocol: proto.ProtoTCP})
+			trS = "6"
+		} else {
+			attrs = append(attrs, proto.RequestedTransport{Protocol: proto.ProtoUDP})
+		}
 	}
 	df := h.rng.Intn(80) == 0
 	if df {
@@ -723,7 +731,7 @@ func runH2History(t *testing.T, vt *vhT, seed int64, nOps int) {
 	rng := rand.New(rand.NewSource(seed))
 	synctest.Test(t, func(t *testing.T) {
 		h := &h2Hist{vt: vt, rng: rng, t0: time.Now(), lastTid: map[string]int{}, owner: map[string]string{}, relays: map[string]int{},
-			relayTCP: map[string]bool{}, nextPort: 50000, nextEven: 60000, dataPort: 7000, kinds: map[string]bool{}}
+			relayTCP: map[string]bool{}, cidUser: map[int]string{}, boundCid: map[int]bool{}, nextPort: 50000, nextEven: 60000, dataPort: 7000, kinds: map[string]bool{}}
 		d := func(xs ...time.Duration) time.Duration { return xs[rng.Intn(len(xs))] }
 		cfg := ServerConfig{
 			PermissionTimeout:   d(0, 0, 5*time.Minute, 30*time.Second, 12*time.Minute, 2*time.Second),
@@ -750,11 +758,19 @@ func runH2History(t *testing.T, vt *vhT, seed int64, nOps int) {
 			l0.unspec = true
 		}
 		lis := []*h2Listener{l0}
-		if rng.Intn(2) == 0 {
+		h.tcpMode = rng.Intn(4) == 0
+		if rng.Intn(2) == 0 || h.tcpMode {
 			lis = append(lis, &h2Listener{stream: true, ip: net.ParseIP("10.0.0.1").To4(), vetoed: vetoed[:1]})
 		}
 		w := newH2World(vt, cfg, lis, withAuth, withQuota)
 		h.w = w
+		w.onCid = func(idx int, key string, bound bool) {
+			if bound {
+				h.boundCid[idx] = true
+			} else if u, ok := h.owner[key]; ok {
+				h.cidUser[idx] = u
+			}
+		}
 		s := w.srv
 		b := func(x bool) int {
 			if x {
@@ -802,6 +818,8 @@ func runH2History(t *testing.T, vt *vhT, seed int64, nOps int) {
 			r := rng.Intn(100)
 			if has && len(la.ListPermissions()) == 0 && rng.Intn(10) < 6 {
 				r = 11 + rng.Intn(24) // CreatePermission or ChannelBind
+			} else if has && h.tcpMode && rng.Intn(10) < 7 {
+				r = 80 + rng.Intn(11) // Connect, ConnectionBind, inbound connection, pipe traffic
 			}
 			switch {
 			case !has && r < 85:
@@ -824,8 +842,18 @@ func runH2History(t *testing.T, vt *vhT, seed int64, nOps int) {
 				h.opUnknown(c)
 			case r < 68:
 				h.opJunk(c)
-			case r < 86:
+			case r < 80:
 				h.opPeerData()
+			case r < 84:
+				if has {
+					h.opConnect(c)
+				}
+			case r < 87:
+				h.opConnBind()
+			case r < 89:
+				h.opPeerConn()
+			case r < 91:
+				h.opPipe()
 			case r < 97:
 				h.opAdvance()
 			case r < 98:
